@@ -228,8 +228,12 @@ Definition starts_cap (s : bytes) : bool := match s with c :: _ => is_cap c | []
 Definition name_ok (s : bytes) : bool := ident s && starts_letter s.
 Definition type_name_ok (s : bytes) : bool := forallb alnum s && starts_cap s.
 
+(* inline anonymous schemas (field x object { ... }) are modelled and compared with the real compiler,
+   but the acceptance theorem does not cover them: they are outside [in_quantifier] *)
+Definition is_inline_kind (u : ufield) : bool :=
+  match uf_kind u with KInlineObject _ | KInlineOneof _ | KInlineEnum _ => true | _ => false end.
 Definition ufield_wf (u : ufield) : bool :=
-  name_ok (uf_name u)
+  name_ok (uf_name u) && negb (is_inline_kind u)
   && negb (uf_optional u && (uf_required u || match uf_kind u with KKey p _ _ => p | _ => false end)).
 (* the proto symbols the user's fields of ONE message stand for: the field ToSnake(name), the
    presence oneof "_<field>" of an optional field, the entry message <Camel>Entry of a map field *)
